@@ -104,6 +104,12 @@ def run(ck: Check):
                      tuple(range(n // 2, n // 2 + m)), tuple(range(0, n, max(1, n // max(m, 1))))[:m]]
             for core in cores:
                 go("line", n, core, "large")
+    # evenly spread cores at powers of two: every chunk-size level alternates failing and removable chunks
+    for n in ((2048,) if quick else (512, 1024, 2048, 4096, 8192)):
+        for m in ((8, 16) if quick else (4, 8, 16, 32)):
+            stride = n // m
+            for off in ((0, stride // 2) if quick else (0, stride // 2, stride - 1)):
+                go("line" if off else "symbol", n, tuple(range(off, n, stride))[:m], "spread-pow2")
     for _ in range(100 if quick else 3000):
         n = r.randint(2, 300 if quick else 5000)
         m = r.randint(0, min(n, 12))
